@@ -1,4 +1,220 @@
-import TD.C20.Model
+import TD.C20.Lemmas
+
+/-!
+# C20 — file type identification recognises every supported format and never crashes
+
+Property theorems only.  The model `TD.C20.identify` transcribes `TotalDepth/util/bin_file_type.py`; its table of tests
+(`TD.C20.Gen.tests`: order, magic byte strings, constants, regular-expression shapes) is re-generated from the source by
+`./check C20`, so a reordering of `FUNCTION_ID_MAP` or a changed signature changes the subject of these theorems.
+The LIS deep test `lisT` and the DAT trial parse `datP` are abstract parameters (see `Model.lean`): theorems that
+mention them are named `…_partial` and say what is missing.
+-/
 namespace TD.C20
-theorem placeholder : True := trivial
+open TD.C20.Gen
+
+/-! ## Totality, range, ordering -/
+
+/-- the strings one entry of the table can return -/
+def kindRets : TestKind → List String
+  | .magic _ _ ret => [ret]
+  | .magicAny _ ret => [ret]
+  | .bit .. => ["BIT"]
+  | .las pfx => ["LAS" ++ codeOfBytes pfx]
+  | .rp66v1 => ["RP66V1"]
+  | .rp66v1Tif => ["RP66V1", "RP66V1t", "RP66V1tr"]
+  | .rp66v1TifR => ["RP66V1", "RP66V1t", "RP66V1tr"]
+  | .rp66v2 => ["RP66V2"]
+  | .dat => ["DAT"]
+  | .segy => ["SEGY"]
+  | .lisVer _ _ ret => [ret]
+  | .ascii _ ret => [ret]
+  | .lis => ["LIS", "LISt", "LIStr"]
+  | .unknown => []
+
+theorem rp66v1Bytes_range (x : Bytes) : rp66v1Bytes x = "" ∨ rp66v1Bytes x = "RP66V1" := by
+  unfold rp66v1Bytes
+  repeat' split
+  all_goals simp
+
+theorem rp66v1TifGeneral_range (x : Bytes) (n : Nat) :
+    rp66v1TifGeneral x n = "" ∨ rp66v1TifGeneral x n ∈ ["RP66V1", "RP66V1t", "RP66V1tr"] := by
+  unfold rp66v1TifGeneral
+  rcases rp66v1Bytes_range (x.drop 12) with h | h
+  · simp [h]
+  · simp only [h]
+    by_cases hn : (n != rp66v1LenWithTif) = true
+    · simp [hn]
+    · simp only [hn]
+      cases tifInitial x <;> decide
+
+theorem runTest_range (lisT : Bytes → LisRes) (datP : Bytes → Bool) (k : TestKind) (b : Bytes) :
+    runTest lisT datP k b = "" ∨ runTest lisT datP k b ∈ kindRets k := by
+  cases k with
+  | magic n sig ret => simp only [runTest, kindRets]; split <;> simp
+  | magicAny sigs ret => simp only [runTest, kindRets]; split <;> simp
+  | bit t w k => simp only [runTest, kindRets, bitTest]; repeat' split
+                 all_goals simp
+  | las pfx =>
+    simp only [runTest, kindRets, lasTest]
+    repeat' split
+    all_goals simp
+  | rp66v1 => simp only [runTest, kindRets]; rcases rp66v1Bytes_range (b.take 80) with h | h <;> simp [h]
+  | rp66v1Tif =>
+    simp only [runTest, kindRets, rp66v1TifTest]
+    split
+    · simp
+    · exact rp66v1TifGeneral_range _ _
+  | rp66v1TifR =>
+    simp only [runTest, kindRets, rp66v1TifRTest]
+    split
+    · simp
+    · exact rp66v1TifGeneral_range _ _
+  | rp66v2 => simp only [runTest, kindRets, rp66v2Test]; repeat' split
+              all_goals simp
+  | dat => simp only [runTest, kindRets, datTest]; repeat' split
+           all_goals simp
+  | segy => simp only [runTest, kindRets, segyTest]; repeat' split
+            all_goals simp
+  | lisVer sigs extra ret => simp only [runTest, kindRets, lisVerTest]; split <;> simp
+  | ascii n ret => simp only [runTest, kindRets, asciiTest]; split <;> simp
+  | lis => simp only [runTest, kindRets]; cases lisT b <;> simp [LisRes.code]
+  | unknown => simp [runTest]
+
+theorem firstMatch_range (lisT : Bytes → LisRes) (datP : Bytes → Bool) (b : Bytes) (ts : List (String × TestKind × String)) :
+    firstMatch lisT datP b ts = "" ∨ ∃ t ∈ ts, firstMatch lisT datP b ts ∈ kindRets t.2.1 := by
+  induction ts with
+  | nil => left; rfl
+  | cons t rest ih =>
+    obtain ⟨nm, k, lbl⟩ := t
+    simp only [firstMatch]
+    by_cases h : (runTest lisT datP k b != "") = true
+    · simp only [h, if_true]
+      rcases runTest_range lisT datP k b with h0 | h1
+      · simp [h0] at h
+      · right; exact ⟨(nm, k, lbl), by simp, h1⟩
+    · simp only [h]
+      rcases ih with h0 | ⟨t, ht, hk⟩
+      · left; simpa using h0
+      · right; exact ⟨t, by simp [ht], by simpa using hk⟩
+
+/-- every string an entry of the generated table can return is a documented code -/
+theorem table_rets_documented : ∀ t ∈ tests, ∀ s ∈ kindRets t.2.1, s ∈ codes := by decide
+
+/-- **Totality and range**: for every byte string (and whatever the two deep tests answer) the identification is the
+empty string or one of the documented codes of the generated table. -/
+theorem total_and_in_range (lisT : Bytes → LisRes) (datP : Bytes → Bool) (b : Bytes) :
+    identify lisT datP b = "" ∨ identify lisT datP b ∈ codes := by
+  rcases firstMatch_range lisT datP b tests with h | ⟨t, ht, hk⟩
+  · left; exact h
+  · right; exact table_rets_documented t ht _ hk
+
+example : identify (fun _ => .none) (fun _ => false) [80, 75, 3, 4, 20, 0] = "ZIP" := by decide
+
+/-- **First match wins**: the answer is the answer of the first test of the table (in `FUNCTION_ID_MAP` order) that
+answers at all; it is empty exactly when every test answers empty. -/
+theorem first_match_wins (lisT : Bytes → LisRes) (datP : Bytes → Bool) (b : Bytes)
+    (pre post : List (String × TestKind × String)) (t : String × TestKind × String)
+    (hsplit : tests = pre ++ t :: post)
+    (hpre : ∀ u ∈ pre, runTest lisT datP u.2.1 b = "")
+    (ht : runTest lisT datP t.2.1 b ≠ "") :
+    identify lisT datP b = runTest lisT datP t.2.1 b := by
+  unfold identify
+  rw [hsplit]
+  clear hsplit
+  induction pre with
+  | nil =>
+    obtain ⟨nm, k, lbl⟩ := t
+    simp only [List.nil_append, firstMatch]
+    simp [ht]
+  | cons u pre ih =>
+    obtain ⟨nm, k, lbl⟩ := u
+    have hu : runTest lisT datP k b = "" := hpre (nm, k, lbl) (by simp)
+    simp only [List.cons_append, firstMatch, hu]
+    exact ih (fun v hv => hpre v (by simp [hv]))
+
+theorem all_empty_iff (lisT : Bytes → LisRes) (datP : Bytes → Bool) (b : Bytes) :
+    identify lisT datP b = "" ↔ ∀ t ∈ tests, runTest lisT datP t.2.1 b = "" := by
+  unfold identify
+  generalize tests = ts
+  induction ts with
+  | nil => simp [firstMatch]
+  | cons t rest ih =>
+    obtain ⟨nm, k, lbl⟩ := t
+    simp only [firstMatch, List.mem_cons, forall_eq_or_imp]
+    by_cases h : runTest lisT datP k b = ""
+    · simp [h, ih]
+    · simp [h]
+
+
+/-! ## Recognition: LIS -/
+
+/-- The head of a LIS file as the lemmas need it: first byte NUL (a reel/tape/file header is 62..138 bytes long, so the
+high byte of the first physical record length is 0; a TIF-marked file starts with the TIF type word 0), bytes 4 and 16
+are not `V` (byte 4 is the logical record type 128/130/132 or a TIF zero; byte 16 is header filler or, behind a TIF
+marker, the record type), bytes 8..11 do not spell the word 288 (for a TIF-marked file: the first record is not exactly
+276 bytes long — the stated exclusion; for a plain file these are printable name characters), and a byte >= 128
+occurs within the first 256 (the record type byte 128/130/132 at offset 4 or 16). -/
+structure LisHead (b : Bytes) : Prop where
+  first_zero : b.head? = some 0
+  bytes : ∀ x ∈ b, x < 256
+  b4 : byteAt b 4 ≠ 86
+  b16 : byteAt b 16 ≠ 86
+  not_bit : ¬ word288 b
+  high : ∃ x ∈ b.take 256, 128 ≤ x
+
+/-- **LIS, relative to the deep test** (`_partial`: the physical-record scan + `FileIndexer` is the abstract `lisT`;
+what is proved is that nothing earlier in the generated order claims a file with a LIS head, so the answer is exactly
+what the LIS test says — `LIS`, `LISt`, `LIStr` or nothing.  Missing for the full statement "every valid LIS file is
+identified as LIS/LISt/LIStr": `lisT b ≠ none` for files written by `File.FileWrite`; that part is exercised by the
+oracle on generated files.) -/
+theorem lis_identified_partial (lisT : Bytes → LisRes) (datP : Bytes → Bool) (b : Bytes) (h : LisHead b) :
+    identify lisT datP b = (lisT b).code := by
+  obtain ⟨h0, hbytes, h4, h16, hnb, hhi⟩ := h
+  cases b with
+  | nil => simp at h0
+  | cons c r =>
+    have hc : c = 0 := by simpa using h0
+    subst hc
+    rw [identify_skip_magic lisT datP 0 r (by unfold notMagicFirst; omega)]
+    have hbit := bit_fail (0 :: r) (thirdWord_ne _ hbytes hnb)
+    have hlas : ∀ pfx, lasTest pfx (0 :: r) = "" := fun pfx =>
+      las_fail pfx (0 :: r) 0 r (by simp [List.dropWhile, isWs]) (by decide) (by decide)
+    have hv1 := rp66v1Test_fail (0 :: r) h4
+    have ht := rp66v1Tif_fail (0 :: r) h16
+    have htr := rp66v1TifR_fail (0 :: r) h16
+    have hv2 := rp66v2_fail (0 :: r) h4
+    obtain ⟨ha256, hall⟩ := high_byte_not_ascii (0 :: r) 256 hhi
+    have hdat : datTest datP (0 :: r) = "" := by simp [datTest, hall]
+    have hsegy := segy_fail_zero r
+    have hver : ∀ sigs extra ret, (∀ sig ∈ sigs, sig.head? ≠ some 0 ∧ sig ≠ []) → lisVerTest sigs extra ret (0 :: r) = "" :=
+      fun sigs extra ret hs => lisVer_fail sigs extra ret 0 r (by decide) hs
+    have hascii : asciiTest 256 "ASCII" (0 :: r) = "" := by
+      unfold asciiTest; rw [ha256]; rfl
+    simp only [tests, List.filter, isMagic, Bool.not_true, Bool.not_false, firstMatch, runTest, hbit, hlas, hv1, ht, htr, hv2,
+      hdat, hsegy, hascii]
+    rw [hver _ _ _ (by decide)]
+    by_cases hc : (lisT (0 :: r)).code = ""
+    · simp [hc]
+    · simp [hc]
+
+/-- plain LIS -/
+theorem lis_identified (lisT : Bytes → LisRes) (datP : Bytes → Bool) (b : Bytes) (h : LisHead b) (hl : lisT b = .lis) :
+    identify lisT datP b = "LIS" := by rw [lis_identified_partial lisT datP b h, hl]; rfl
+
+/-- LIS with TIF markers (first record not exactly 276 bytes: `LisHead.not_bit`) -/
+theorem list_identified (lisT : Bytes → LisRes) (datP : Bytes → Bool) (b : Bytes) (h : LisHead b) (hl : lisT b = .list) :
+    identify lisT datP b = "LISt" := by rw [lis_identified_partial lisT datP b h, hl]; rfl
+
+/-- LIS with reversed TIF markers -/
+theorem listr_identified (lisT : Bytes → LisRes) (datP : Bytes → Bool) (b : Bytes) (h : LisHead b) (hl : lisT b = .listr) :
+    identify lisT datP b = "LIStr" := by rw [lis_identified_partial lisT datP b h, hl]; rfl
+
+/-- a plain file header record (PR length 62, type 128, name `RUNOne.lis`, filler NUL) has a LIS head -/
+example : LisHead [0, 62, 0, 0, 128, 0, 82, 85, 78, 79, 110, 101, 46, 108, 105, 115, 0, 0, 83, 117] :=
+  ⟨by decide, by decide, by decide, by decide, by decide, ⟨128, by decide, by decide⟩⟩
+
+/-- a TIF-marked reel header (next = 144) has a LIS head -/
+example : LisHead [0, 0, 0, 0, 0, 0, 0, 0, 144, 0, 0, 0, 0, 132, 0, 0, 132, 0, 83, 69] :=
+  ⟨by decide, by decide, by decide, by decide, by decide, ⟨144, by decide, by decide⟩⟩
+
 end TD.C20
